@@ -159,6 +159,7 @@ type FuncEnc struct {
 	bvOffsets map[string]bvOffset
 	consts    map[string]bool
 	entryMeasure []Term
+	renames      map[string]string // rename recovery: contract name -> local it was resolved to ("" = none)
 	deps         map[string]bool // functions whose contract (or havoc summary, or inlined body) this function's proof uses
 	checkOnly    bool // emit obligations without assuming them afterwards
 	defAt     map[string]int
